@@ -322,8 +322,8 @@ def mklib(prop, kind, fixed, gen, nq, nt, oracle, rule, **kw):
 
 
 PROPS.update({
-    "C12": mklib("C12", "lib12", [GL.lib12_all()], lambda r: [f"chk {r.randint(0, 4)} {r.randint(-50, 50)} {r.randint(-50, 50)}" for _ in range(30)], 20, 2000,
-                 GL.oracle12, "all pairs over a 6-element Result<i64,i64> domain x 5 checkers (exhaustive for that domain) + random pairs; also through OutputCheckerObj",
+    "C12": mklib("C12", "lib12", [GL.lib12_all()], lambda r: [f"{r.choice(['chk', 'chk', 'chk2', 'chk3', 'chk4'])} {r.randint(0, 4)} {r.randint(-50, 50)} {r.randint(-50, 50)}" for _ in range(30)], 20, 2000,
+                 GL.oracle12, "all pairs over a 6-element Result<i64,i64> domain x 5 checkers (exhaustive for that domain), the same for Result<(),i64>, Result<bool,()> and Result<String,()> (zero-sized payloads / errors, niche layouts) + random pairs; also through OutputCheckerObj",
                  proj_name="C12: stamps and verdicts of the five built-in output checkers"),
     "C14": mklib("C14", "lib14", [], GL.gen14, 200, 20000, GL.oracle14,
                  "random sequences of insert/remove/entry/get operations through writers and through Pie::resource_state_mut over two key types, and typed state accesses (get/get_mut/set/set_boxed/get_or_set_default with matching and non-matching types) over three resource types",
